@@ -16,6 +16,8 @@ CLAIMED = {
             'plus a one-step inductive obligation from an arbitrary buffer state for the bounded operations'),
     'C03': ('6.C03', 'pastify() runs on each enumerated bounded-future specification, the rewritten monitor runs on symbolic samples and z3 shows '
             'update_i == rho(phi, prefix, i-h) for all values and all i>=h, with h computed independently; unit spellings and unbounded-future rejection included'),
+    'C04': ('6.C04', 'per dense-time operator: time-stamps, values and the evaluation instant are symbolic; z3 shows the returned sample list is '
+            'well-formed, covers the domain start and equals the dense-time semantics at every instant of the common domain'),
 }
 NA = {
     'C14': 'the quantifier ranges over strings and every string is consumed by the ANTLR4 ATN interpreter, which cannot be encoded or '
